@@ -14,7 +14,7 @@ def _is_mutable_ctor(node):
     if isinstance(node, ast.Call):
         f = node.func
         name = f.attr if isinstance(f, ast.Attribute) else getattr(f, 'id', '')
-        if name in ('create', 'clone', 'list', 'dict', 'set', 'bytearray') or (name[:1].isupper() and name not in ('Origin', 'NewType', 'TypeVar', 'Literal', 'Anchor')):
+        if name in ('create', 'clone', 'list', 'dict', 'set', 'bytearray', 'deque', 'defaultdict', 'OrderedDict', 'Counter', 'ChainMap', 'array', 'Queue', 'LifoQueue', 'SimpleQueue', 'WeakValueDictionary', 'WeakKeyDictionary', 'local') or (name[:1].isupper() and name not in ('Origin', 'NewType', 'TypeVar', 'Literal', 'Anchor')):
             return True
     return False
 
@@ -266,9 +266,34 @@ def api_calls(rng, n, a5=None):
     from refids import random_valid_id, ref_id
     calls = []
     for _ in range(n):
-        k = rng.randrange(13)
+        k = rng.randrange(15)
         r = rng.randint(0, 29)
-        if k <= 2:
+        if k == 13:
+            # calls that raise (a failed call must leave nothing behind either)
+            c = random_valid_id(rng, 3, 20)
+            from refids import ref_res as _rr
+            calls.append(rng.choice([
+                ('uncompact', ([random_valid_id(rng, 1, 3), random_valid_id(rng, 6, 9)], 4)),
+                ('uncompact', ([c], _rr(c) - 1)),
+                ('cell_to_children', (c, _rr(c) - 1)),
+                ('cell_to_parent', (c, _rr(c) + 1)),
+                ('lonlat_to_cell', ((rng.uniform(-180, 180), rng.uniform(-90, 90)), rng.choice([30, 31]))),
+                ('cell_to_children', (c, 31)),
+            ]))
+        elif k == 14 and a5 is not None:
+            # a published cell corner given back (the rare fallback path of lonlat_to_cell), then a query next to it at the same resolution
+            c = random_valid_id(rng, 2, 29)
+            from refids import ref_res as _rr
+            try:
+                ring = a5.cell_to_boundary(c, {'segments': 1, 'closed_ring': False})
+                cen = a5.cell_to_lonlat(c)
+                q = tuple(ring[rng.randrange(len(ring))])
+                calls.append(('lonlat_to_cell', (q, _rr(c))))
+                calls.append(('lonlat_to_cell', ((cen[0], cen[1]), _rr(c))))
+                calls.append(('lonlat_to_cell', (q, _rr(c))))
+            except Exception:
+                pass
+        elif k <= 2:
             lat = rng.choice([rng.uniform(-89.9, 89.9), rng.uniform(-89.9, 89.9), 90.0, -90.0, 89.9999, 0.0])
             lon = rng.choice([rng.uniform(-180, 180), 180.0, -180.0, rng.uniform(-540, 540)])
             calls.append(('lonlat_to_cell', ((lon, lat), rng.randint(0, 29))))
@@ -437,8 +462,9 @@ def state_observation(rng, ncalls, ntransient):
     """(1) persistent: no call may leave ANY package state different from before (the three fill-only caches and the CRS counter aside);
     (2) transient: while a call runs, no module-level container may be changed, even if it is restored before the call returns"""
     a5, mods = fresh_a5()
+    gen_a5, _ = fresh_a5()
     problems = []
-    calls = api_calls(rng, ncalls) + global_workload(rng, 12)
+    calls = api_calls(rng, ncalls, a5=gen_a5) + global_workload(rng, 12)
     before = package_state(mods)
     changed_places = set()
     for name, args in calls:
@@ -457,10 +483,21 @@ def state_observation(rng, ncalls, ntransient):
     conts = {}
     for mname, m in mods.items():
         for k, v in vars(m).items():
-            if isinstance(v, (list, dict, set)) and not k.startswith('__'):
+            import collections.abc as _abc
+            if isinstance(v, (_abc.MutableSequence, _abc.MutableMapping, _abc.MutableSet)) and not k.startswith('__'):
                 conts[f'{mname}:{k}'] = v
     def fp():
-        return tuple((n, len(c), hash(tuple(map(id, c))) if isinstance(c, list) else hash(tuple(map(id, c.keys()))) if isinstance(c, dict) else len(c)) for n, c in conts.items())
+        import collections.abc as _abc
+        def one(c):
+            try:
+                if isinstance(c, _abc.MutableMapping):
+                    return hash(tuple(map(id, list(c.keys()))))
+                if isinstance(c, _abc.MutableSequence):
+                    return hash(tuple(map(id, list(c))))
+            except Exception:
+                pass
+            return len(c)
+        return tuple((n, len(c), one(c)) for n, c in conts.items())
     seen_t = set()
     for name, args in (calls[:ntransient] + [('cell_to_children', (0, 1)), ('get_res0_cells', ()), ('uncompact', ([0], 1)), ('compact', ([c for c in a5.cell_to_children(0, 1)],))]):
         base = fp()
@@ -507,7 +544,15 @@ def runtime_discipline(rng, ncalls):
         try:
             call(a5, name, args)
         except Exception as e:  # noqa
-            problems.append(f'{name}{args!r} raised {type(e).__name__}')
+            # a call that raises the same way on an untouched copy is an error case of the API, not a discipline problem
+            if '_a5ref' not in dir():
+                _a5ref, _ = fresh_a5()
+            try:
+                call(_a5ref, name, args)
+                problems.append(f'{name}{args!r} raised {type(e).__name__} (it returns normally on a fresh copy)')
+            except Exception as e2:  # noqa
+                if type(e2).__name__ != type(e).__name__:
+                    problems.append(f'{name}{args!r} raised {type(e).__name__} ({type(e2).__name__} on a fresh copy)')
             continue
         if args != before:
             problems.append(f'{name} modified its arguments {before!r}')
@@ -717,6 +762,33 @@ def cold_reset(mods):
     cellmod = mods['a5.core.cell']
     cellmod._dodecahedron = type(cellmod._dodecahedron)()
 
+_ref_dod = [None]
+def cache_corruption(mods):
+    """a filled slot of the two index-addressed caches that does not hold the value a fresh instance computes for that slot (what a later
+    call would read), or None"""
+    try:
+        dod = mods['a5.core.cell']._dodecahedron
+        cls = mods['a5.projections.dodecahedron'].DodecahedronProjection
+        if _ref_dod[0] is None or type(_ref_dod[0]) is not cls:
+            _ref_dod[0] = cls()
+        ref = _ref_dod[0]
+        for key, val in enumerate(list(getattr(dod, 'spherical_triangles', []))):
+            if val is None:
+                continue
+            idx = key % 120
+            want = ref.get_spherical_triangle(idx % 10, idx // 10, key >= 120)
+            if canon(val) != canon(want):
+                return f'slot {key} of spherical_triangles is left holding the triangle of another slot'
+        for key, val in enumerate(list(getattr(dod, 'face_triangles', []))):
+            if val is None:
+                continue
+            want = ref.get_face_triangle(key % 10, key >= 10, key >= 20)
+            if canon(val) != canon(want):
+                return f'slot {key} of face_triangles is left holding the triangle of another slot'
+    except Exception:  # noqa  (a changed signature etc.: not this check's business)
+        return None
+    return None
+
 def preemption_search(rng, pairs, max_points, a5=None, hot=None, only_hot=False, stop_after=None, warm=False, busy=None):
     """for API calls A and B: run A under sys.settrace; at the k-th line event inside the library run B to completion
     (a context switch at that line boundary), then let A finish; A's result must equal its undisturbed result.
@@ -836,6 +908,14 @@ def preemption_search(rng, pairs, max_points, a5=None, hot=None, only_hot=False,
             finally:
                 sys.settrace(None)
             stats['preemption_points'] += 1
+            corrupt = None
+            if not (errA or resA != refA or state['berr'] or (state['bres'] is not None and state['bres'] != refB)):
+                corrupt = cache_corruption(mods)
+            if corrupt:
+                what = ((f'after a workload of {len(busy)} calls over all faces, ' if busy else '') + ('after the same call was made once, ' if warm else '') +
+                        f'{A[0]}{A[1]!r} interrupted at its line event {k}/{total} by {B[0]}{B[1]!r}: both calls return the right value but {corrupt}')
+                fails.append({'what': what, 'A': A, 'B': B, 'k': k, 'warm': warm, 'busy': [list(c) for c in (busy or [])]})
+                break
             if errA or resA != refA or state['berr'] or (state['bres'] is not None and state['bres'] != refB):
                 what = ((f'after a workload of {len(busy)} calls over all faces, ' if busy else '') + ('after the same call was made once, ' if warm else '') + f'{A[0]}{A[1]!r} interrupted at its line event {k}/{total} by {B[0]}{B[1]!r}: '
                         + (f'raises {errA}' if errA else ('returns a different value' if resA != refA else f'the interrupting call {"raises " + state["berr"] if state["berr"] else "returns a different value"}')))
@@ -887,7 +967,8 @@ def history_search(rng, nhist, hist_len):
     transient = []
     for _ in range(nhist):
         a5w, _ = fresh_a5()
-        hist = api_calls(rng, hist_len)
+        gen_a5, _ = fresh_a5()          # inputs that need the library (published corners) are produced on a copy of their own
+        hist = api_calls(rng, hist_len, a5=gen_a5)
         for idx, (name, args) in enumerate(hist):
             before = copy.deepcopy(args)
             try:
